@@ -390,7 +390,7 @@ func c04Reuse(r *fw.Rec, f c04Field) {
 }
 
 func c04(c *fw.Ctx) {
-	c.Rule("all six fields: every product a*b (exhaustive, up to 4096^2), every inverse, log and exp compared with shift-and-xor multiplication modulo the primitive polynomial; RS encode compared with polynomial long division and direct syndrome evaluation; RS decode must restore the exact word: short codes (n <= 20) with every single and double error position, long codes with random (k, r) up to n = |F|-1 and 0, 1, t-1, t errors at random, extreme and burst positions; histories of 24 words with varying parity counts on ONE encoder and ONE decoder instance (large then small r, re-encoding in place); 14 operations (Inverse, Exp, Log, Multiply, GetZero, GetOne, BuildMonomial, polynomial evaluation and product, Encode, Decode, the same on a freshly constructed field) each as the FIRST use of each field in a fresh process; distinct = distinct field elements + distinct (field, k, r, data)")
+	c.Rule("all six fields: every product a*b (exhaustive, up to 4096^2), every inverse, log and exp compared with shift-and-xor multiplication modulo the primitive polynomial; RS encode compared with polynomial long division and direct syndrome evaluation; RS decode must restore the exact word: short codes (n <= 20) with every single and double error position, long codes with random (k, r) up to n = |F|-1 and 0, 1, t-1, t errors at random, extreme and burst positions; floor(r/2) errors with magnitudes solved so that two chosen syndromes (the highest, the lowest, or any two) vanish, and all-zero data words over a stale parity area; histories of 24 words with varying parity counts on ONE encoder and ONE decoder instance (large then small r, re-encoding in place); 14 operations (Inverse, Exp, Log, Multiply, GetZero, GetOne, BuildMonomial, polynomial evaluation and product, Encode, Decode, the same on a freshly constructed field) each as the FIRST use of each field in a fresh process; distinct = distinct field elements + distinct (field, k, r, data)")
 	c.Assume("more than floor(r/2) errors are outside the statement and never generated")
 	fields := c04Fields()
 	for _, f := range fields {
@@ -449,6 +449,15 @@ func c04(c *fw.Ctx) {
 			c.Run(fmt.Sprintf("reuse/%s/%d", f.ref.Name, i), func(r *fw.Rec) { c04Reuse(r, f) })
 		}
 	}
+	nzs := c.Pick(120, 3000)
+	for _, f := range fields {
+		f := f
+		for i := 0; i < nzs; i++ {
+			c.Run(fmt.Sprintf("zerosyn/%s/%d", f.ref.Name, i), func(r *fw.Rec) { c04ZeroSyndromes(r, f) })
+		}
+	}
+	c.Floor("rs_decoded_with_two_vanishing_syndromes", int64(6*nzs*10))
+	c.Floor("rs_all_zero_data_words", int64(6*nzs*2))
 	c.Floor("rs_reuse_histories", int64(6*nreuse*9/10))
 	c.Floor("rs_words_encoded", 1000)
 	c.Floor("cold_start_first_operations", 84)
@@ -573,4 +582,95 @@ func c04Cold(r *fw.Rec, fi int) {
 		r.Tally("cold_start_first_operations")
 	}
 	r.Nontrivial("cold/" + f.ref.Name)
+}
+
+// ---- structured error patterns
+
+// c04ZeroSyndromes: t = floor(r/2) errors whose magnitudes are chosen so that two of the r
+// syndromes (any two, often the highest or the lowest) are zero although the word is damaged;
+// plus the all-zero data word.  A decoder that reads too much into a vanishing syndrome (a
+// "clean" shortcut, a degree taken from a normalised polynomial) fails exactly here.
+func c04ZeroSyndromes(r *fw.Rec, f c04Field) {
+	rng := r.Rng
+	enc := reedsolomon.NewReedSolomonEncoder(f.lib)
+	dec := reedsolomon.NewReedSolomonDecoder(f.lib)
+	size := f.ref.Size
+	for rep := 0; rep < 30; rep++ {
+		ec := 4 + 2*rng.Intn(4) // 4, 6, 8, 10
+		if rng.Intn(4) == 0 {
+			ec++
+		}
+		maxK := size - 1 - ec
+		if maxK < 1 {
+			continue
+		}
+		k := 1 + rng.Intn(minInt(maxK, 40))
+		data := make([]int, k)
+		if rep%10 != 0 { // every tenth word is all zero
+			for i := range data {
+				data[i] = rng.Intn(size)
+			}
+		} else {
+			r.Tally("rs_all_zero_data_words")
+		}
+		word, ok := c04Encode(r, f, enc, data, ec)
+		if !ok {
+			return
+		}
+		n, t := k+ec, ec/2
+		if t < 3 {
+			t = 2
+		}
+		if t > ec/2 {
+			t = ec / 2
+		}
+		pos := rng.Perm(n)[:t]
+		// which two syndromes stay zero
+		j1, j2 := ec-1, ec-2
+		switch rng.Intn(3) {
+		case 1:
+			j1, j2 = 0, 1
+		case 2:
+			j1 = rng.Intn(ec)
+			j2 = (j1 + 1 + rng.Intn(ec-1)) % ec
+		}
+		w := func(j, p int) int { // contribution weight of an error at position p to syndrome j
+			return f.ref.PowOf(f.ref.Pow((f.ref.Base+j)%(size-1)), n-1-p)
+		}
+		mags := make([]int, t)
+		c1, c2 := 0, 0
+		for i := 0; i < t-2; i++ {
+			mags[i] = 1 + rng.Intn(size-1)
+			c1 ^= f.ref.Mul(mags[i], w(j1, pos[i]))
+			c2 ^= f.ref.Mul(mags[i], w(j2, pos[i]))
+		}
+		pa, pb := pos[t-2], pos[t-1]
+		a11, a12, a21, a22 := w(j1, pa), w(j1, pb), w(j2, pa), w(j2, pb)
+		det := f.ref.Mul(a11, a22) ^ f.ref.Mul(a12, a21)
+		if det == 0 {
+			continue
+		}
+		di := f.ref.Inv(det)
+		mags[t-2] = f.ref.Mul(di, f.ref.Mul(c1, a22)^f.ref.Mul(c2, a12))
+		mags[t-1] = f.ref.Mul(di, f.ref.Mul(c2, a11)^f.ref.Mul(c1, a21))
+		if mags[t-2] == 0 || mags[t-1] == 0 {
+			// t-2 free errors already satisfy the constraints (t == 2: no damage at all): not a t-error pattern
+			continue
+		}
+		// self-check of the construction against the reference syndromes
+		recv := append([]int{}, word...)
+		for i, p := range pos {
+			recv[p] ^= mags[i]
+		}
+		syn := rs.Syndromes(f.ref, recv, ec)
+		if syn[j1] != 0 || syn[j2] != 0 {
+			r.Inconclusive(fmt.Sprintf("construction: syndromes %d and %d are %d, %d, expected 0", j1, j2, syn[j1], syn[j2]))
+			return
+		}
+		if !c04Decode(r, f, dec, word, ec, pos, mags) {
+			return
+		}
+		r.Tally("rs_decoded_with_two_vanishing_syndromes")
+		r.NontrivialH(hashInts(word, pos) ^ uint64(ec))
+	}
 }
